@@ -31,11 +31,11 @@ def FullStatement (c : Cfg) : Prop :=
 /-- the code as it is satisfies the hypotheses of every theorem below (a fact about the
 regenerated definitions) -/
 theorem code_cfg_sound : Cfg.code.Sound := by
-  refine ⟨fun v => ?_, fun v => ?_, ?_, ?_, ?_, ?_, ?_⟩ <;>
+  refine ⟨fun v => ?_, fun v => ?_, ?_, ?_, ?_, ?_, ?_, ?_⟩ <;>
     simp [Cfg.code, Cfg.useGlobal, Cfg.upvarGlobal, Cfg.upvarOf, Cfg.nameOf,
       globalsPkgName, bindPkgName, upvarPkgSource, upvarNameSource, usePkgSource, useNameSource,
       upvarIndexPkgSource, upvarIndexNameSource, upvarRefOwner, oneGlobalPerVariable,
-      Gen.VarBinding.pointerInit, templatePkgName, usedVarsPkg]
+      Gen.VarBinding.pointerInit, templatePkgName, usedVarsPkg, Gen.VarBinding.lookupOrder]
 
 /-- **C17, aliasing.** After any emission, every recorded reference to a variable `v` — in whatever
 function `f` it was emitted, and whichever reference came first — is at run time the *one* global
@@ -54,8 +54,26 @@ theorem reference_aliases_binding (es : List Event) (s : Store) (h : emit Cfg.co
   rw [h1] at this
   exact (Option.some.inj this).symm
 
-example : ∃ s, emit Cfg.code [.closure 0 1 [.loc, .predef "v"], .use 1 "v", .use 0 "v"] = some s
+example : ∃ s, emit Cfg.code [.closure 0 1 [.loc "a", .predef "v"], .use 1 "v", .use 0 "v"] = some s
     ∧ s.ref 1 "v" = some 1 ∧ s.ref 0 "v" = some 0 := ⟨_, rfl, by decide, by decide⟩
+
+/-- **C17, names do not capture.** A reference the checker resolved to the global `v` is emitted as
+that global — an entry of the globals under the package `initGlobalVariables` binds, never one
+under the package of template files — whatever same-named variables imported, extending or
+rendered files declare (`pkgVar k v`) and whatever is bound by that name into the referring
+function's package (`bindImport t k v`), and whatever captured local has that name: with the
+lookup order regenerated from `nonLocalVarIndex`, the by-name lookups are not reached. -/
+theorem global_reference_not_captured_by_package_var (es : List Event) (s : Store)
+    (h : emit Cfg.code es = some s) (f : Fn) (v : String) (k : Nat) (hr : s.ref f v = some k) :
+    ∃ g gl, resolve s f k = some g ∧ s.globals[g]? = some gl ∧ gl.name = v
+      ∧ gl.pkg = bindPkgName ∧ gl.pkg ≠ templatePkgName := by
+  obtain ⟨g, h1, h2, _⟩ := reference_aliases_binding es s h f v k hr
+  have hne : bindPkgName ≠ templatePkgName := by decide
+  exact ⟨g, _, h1, h2, rfl, rfl, hne⟩
+
+example : ∃ s, emit Cfg.code [.declFunc 1 1, .pkgVar 1 "v", .bindImport 0 1 "v", .use 0 "v", .use 1 "v"]
+    = some s ∧ s.pkgVarRef 0 "v" = some 0 ∧ s.ref 0 "v" = some 1 ∧ s.ref 1 "v" = some 1 :=
+  ⟨_, rfl, by decide, by decide, by decide⟩
 
 /-- **C17, the values.** The full statement holds of the code. -/
 theorem every_reference_sees_run_value : FullStatement Cfg.code := by
@@ -118,7 +136,7 @@ theorem usedVars_exact : UsedVarsStatement Cfg.code := by
     simpa [Store.init] using this
   · exact mem_usedVars code_cfg_sound hs v ((hseen v).mpr (Or.inr hv))
 
-example : ∃ s, emit Cfg.code [.declFunc 1, .pkgVar "X1", .use 1 "v", .use 0 "v"] = some s
+example : ∃ s, emit Cfg.code [.declFunc 1 1, .pkgVar 1 "X1", .use 1 "v", .use 0 "v"] = some s
     ∧ usedVars Cfg.code s = ["v"] := ⟨_, rfl, by decide⟩
 
 /-! ### The three defects found on the unchanged tree, as refuted configurations
@@ -160,8 +178,19 @@ theorem upvar_identName_refuted : ¬ FullStatement { Cfg.code with upvarPkg := .
 run with `v: 7` — with one global per function the model prints `(5)[7]`, as the unfixed code did. -/
 theorem perFunction_globals_refuted : ¬ FullStatement { Cfg.code with share := false } := by
   intro h
-  have := outputs_of_full h [.declFunc 1, .use 1 "v", .use 0 "v"]
+  have := outputs_of_full h [.declFunc 1 1, .use 1 "v", .use 0 "v"]
     [("v", .value 7)] [.set 0 "v" 5, .show 0 "v", .show 1 "v"] _ _ rfl rfl (by decide)
+  revert this
+  decide
+
+/-- index `{% import "imp" %}{{ v }}`, imp `{% var v = 500 %}` (unexported: invisible to the importer),
+run with `v: 7` — with the by-name lookup among the package variables before the predefined one the
+reference is emitted as the imported file's variable and does not show 7. -/
+theorem packageVars_first_refuted :
+    ¬ FullStatement { Cfg.code with lookupOrder := [.closureVars, .packageVars, .predefined] } := by
+  intro h
+  have := outputs_of_full h [.pkgVar 1 "v", .bindImport 0 1 "v", .use 0 "v"]
+    [("v", .value 7)] [.show 0 "v"] _ _ rfl rfl (by decide)
   revert this
   decide
 
@@ -169,7 +198,7 @@ theorem perFunction_globals_refuted : ¬ FullStatement { Cfg.code with share := 
 `UsedVars` reports `X1`, as the unfixed code did. -/
 theorem usedVars_unfiltered_refuted : ¬ UsedVarsStatement { Cfg.code with usedPkg := none } := by
   intro h
-  have := ((h [.pkgVar "X1"] _ rfl).2 "X1").mp (by decide)
+  have := ((h [.pkgVar 1 "X1"] _ rfl).2 "X1").mp (by decide)
   simp [Spec.referenced] at this
 
 end ScriggoV.VarStore
